@@ -124,6 +124,9 @@ def upgrades : List (String × List String × List String) := [
   ("v2.2.1", [], [])
 ]
 
+/-- method calls on keepers, params subspaces or the module manager inside an upgrade handler's closure that are given no block context (upgrade package, call): in-memory effects of running the handler -/
+def handlerMemoryCalls : List (String × String) := []
+
 /-- arguments of sdk.NewKVStoreKeys in app/keepers/keys.go -/
 def mountedStores : List String := ["acc", "bank", "staking", "crisis", "mint", "distribution", "slashing", "gov", "params", "consensus", "upgrade", "feegrant", "evidence", "capability", "authz", "group", "ibc", "transfer", "aol", "did", "burn", "pnft"]
 
